@@ -26,6 +26,7 @@ func (r *run) Log(f string, a ...any)            { r.log(f, a...) }
 func (r *run) Schedule() []string                { return r.sched }
 func (r *run) Failed() bool                      { return r.failed }
 func (r *run) SetFailed()                        { r.failed = true }
+func (r *run) CheckForwardedLock(sig string)     { r.lockSig = sig }
 func (r *run) Name() string                      { return r.name }
 func (r *recorder) Replay(o *drv.Out)            { r.replay(o) }
 
